@@ -15,25 +15,79 @@ import (
 
 type SM = tendermint.StateMachine[V, H, A]
 
-// app is the harness Application: a fresh value per Value() call, Valid from a drawn predicate
-// (every validator shares the predicate: the application is deterministic).
+// app is the harness Application (see model_test.go): a fresh value per Value() call, built for the height the
+// validator is deciding on top of the value it committed at the previous height; Valid is either a drawn
+// height-independent predicate or the chain rule. The application is deterministic and the same on every validator
+// (a function of the validator's decided prefix and the value).
 type app struct {
 	s      *sim
-	me     int
+	nd     *node
 	ctr    uint64
 	issued map[V]struct{}
 }
 
 func (a *app) Value() V {
 	a.ctr++
-	v := mkVal(uint64(1000*(a.me+1)) + a.ctr)
+	s, p := a.s, a.nd
+	v := mkVal(uint64(1000*(p.i+1)) + a.ctr)
 	a.issued[v] = struct{}{}
-	a.s.names[v] = fmt.Sprintf("c%d.%d", a.me, a.ctr)
-	a.s.valid[v] = true
+	s.valid[v] = true
+	s.meta[v] = vmeta{h: p.height, parent: s.tip(p)}
+	if s.chain {
+		s.names[v] = fmt.Sprintf("c%d.%d@h%d^%s", p.i, a.ctr, p.height, s.vname(s.tip(p)))
+	} else {
+		s.names[v] = fmt.Sprintf("c%d.%d@h%d", p.i, a.ctr, p.height)
+	}
 	return v
 }
 
-func (a *app) Valid(v V) bool { return a.s.valid[v] } // unknown values are invalid
+func (a *app) Valid(v V) bool {
+	s, p := a.s, a.nd
+	ok := s.validFor(p, v)
+	if m, known := s.meta[v]; !ok && known && !m.bad && m.h != p.height {
+		if m.h < p.height {
+			s.askedOld = true
+		} else {
+			s.askedFuture = true
+		}
+	}
+	return ok
+}
+
+// tip: the value the validator's chain ends with while it decides p.height.
+func (s *sim) tip(p *node) V {
+	if p.height == s.vs.h0 {
+		return genesis
+	}
+	return p.dec[p.height-1]
+}
+
+// validFor is the application model's judgement of v for validator p NOW (p's current height and decided prefix).
+// Unknown values are invalid.
+func (s *sim) validFor(p *node, v V) bool {
+	if !s.chain {
+		return s.valid[v]
+	}
+	m, ok := s.meta[v]
+	return ok && !m.bad && m.h == p.height && m.parent == s.tip(p)
+}
+
+func (s *sim) whyInvalid(p *node, v V) string {
+	if !s.chain {
+		return "the application's (height-independent) predicate rejects it"
+	}
+	m, ok := s.meta[v]
+	switch {
+	case !ok:
+		return "the application does not know it"
+	case m.bad:
+		return "its content is bad"
+	case m.h != p.height:
+		return fmt.Sprintf("it was built for height %d and the validator is deciding height %d", m.h, p.height)
+	default:
+		return fmt.Sprintf("it extends %s but the validator's chain ends with %s", s.vname(m.parent), s.vname(s.tip(p)))
+	}
+}
 
 type node struct {
 	i      int
@@ -43,6 +97,7 @@ type node struct {
 	app    *app
 	height types.Height
 	recs   map[types.Height]*hrec
+	dec    map[types.Height]V // the values this validator committed
 
 	finished bool
 }
@@ -107,16 +162,25 @@ type sim struct {
 	correct []int
 	byz     []int
 	hEnd    types.Height
+	nh      int // heights of the run
 
 	names    map[V]string
+	chain    bool // application kind: chain rule (true) or height-independent predicate
 	valid    map[V]bool
-	byzVals  map[types.Height][2]V
+	meta     map[V]vmeta
+	byzVals  map[bkey][2]V
+	byzCtr   uint64
 	observed map[types.Height][]V // values proposed by correct validators
+	seen     map[types.Height][]V // values named (non-nil) in any proposal/vote of that height, correct or faulty sender
+	seenSet  map[hv]struct{}
+	first    map[V]types.Height // lowest height at which a value was named
 	byzProps map[hr]map[H]struct{}
 
-	inflight []flight
-	tms      []ptm
-	history  []msg // every message a correct validator broadcast
+	inflight   []flight
+	tms        []ptm
+	history    []msg // every message a correct validator broadcast
+	byzHistory []msg // every message a faulty validator sent
+	replayTo   map[hv]uint64
 
 	decided map[types.Height]decision
 	eq      map[eqKey]*eqRec
@@ -137,6 +201,38 @@ type sim struct {
 	byzCommitted bool
 	syncs        int
 	splitLocks   bool
+
+	replaySpread     bool // a value of an earlier height named by a faulty validator at a later height reached >= 2 correct validators
+	replayDecided    bool // ... and it was the value decided at an earlier height
+	replayProposal   bool // ... as a proposal from the legitimate proposer of that round
+	futureValue      bool // a value built for a later height was delivered in a message of an earlier height
+	oldHeightMsg     bool // a message of height < recipient's height was delivered
+	transposed       bool // a faulty validator re-sent an old message with only the height rewritten
+	staleTm          bool // a timeout scheduled at height h fired after its validator had moved to a later height
+	staleTmSameRound bool // ... while the validator was in the round of the stale timeout
+	askedOld         bool // the machine asked the application about a well-formed value of an earlier height
+	askedFuture      bool
+}
+
+type bkey struct {
+	h      types.Height
+	parent V
+}
+
+type hv struct {
+	h types.Height
+	v V
+}
+
+func (s *sim) noteSeen(h types.Height, v V) {
+	if _, ok := s.seenSet[hv{h, v}]; ok {
+		return
+	}
+	s.seenSet[hv{h, v}] = struct{}{}
+	s.seen[h] = append(s.seen[h], v)
+	if f, ok := s.first[v]; !ok || h < f {
+		s.first[v] = h
+	}
 }
 
 // endToEndOnly (env VERIF_C12_E2E_ONLY=1, used only for sensitivity experiments) silences every oracle except the
@@ -235,6 +331,30 @@ func (s *sim) deliver(to int, m msg) {
 		return
 	}
 	p.rec(m.h).note(m)
+	if m.h < p.height {
+		s.oldHeightMsg = true
+	}
+	if !m.id.isNil && (m.from < 0 || m.from >= s.n || s.nodes[m.from].byz) {
+		v := m.val()
+		if f, ok := s.first[v]; ok && f < m.h && m.h == p.height {
+			k := hv{m.h, v}
+			s.replayTo[k] |= 1 << uint(to)
+			if popcount(s.replayTo[k]) >= 2 {
+				s.replaySpread = true
+				for hh := s.vs.h0; hh < m.h; hh++ {
+					if d, ok := s.decided[hh]; ok && d.v == v {
+						s.replayDecided = true
+					}
+				}
+				if m.kind == 'P' && m.from == s.vs.propIdx(m.h, m.r) {
+					s.replayProposal = true
+				}
+			}
+		}
+		if mm, ok := s.meta[v]; ok && mm.h > m.h {
+			s.futureValue = true
+		}
+	}
 	if m.from >= 0 && m.from < s.n && s.nodes[m.from].byz {
 		k := eqKey{m.from, m.kind, m.h, m.r}
 		e := s.eq[k]
@@ -258,6 +378,12 @@ func (s *sim) fire(j int) {
 	p := s.nodes[t.to]
 	s.tracef("#%d timeout %s(h%d r%d) fires at validator %d", s.step, t.tm.Step, t.tm.Height, t.tm.Round, t.to)
 	s.c.Fp("t%d.%d.%d.%d", t.to, t.tm.Step, t.tm.Height, t.tm.Round)
+	if t.tm.Height < p.height {
+		s.staleTm = true
+		if t.tm.Round == p.rec(p.height).round {
+			s.staleTmSameRound = true
+		}
+	}
 	acts := p.sm.ProcessTimeout(t.tm)
 	s.handle(p, acts, &cause{tm: &t.tm})
 }
@@ -384,7 +510,6 @@ func (s *sim) onSchedule(p *node, tm types.Timeout, cz *cause) {
 	s.tms = append(s.tms, ptm{tm, p.i})
 }
 
-
 func (s *sim) onProposal(p *node, a *starknet.BroadcastProposal, cz *cause) {
 	s.checkOwn(p, "a proposal", a.Height, a.Sender)
 	s.enterRound(p, a.Round, cz)
@@ -419,6 +544,7 @@ func (s *sim) onProposal(p *node, a *starknet.BroadcastProposal, cz *cause) {
 	rec.sentProp[a.Round] = m
 	rec.note(m)
 	s.observed[a.Height] = append(s.observed[a.Height], *a.Value)
+	s.noteSeen(a.Height, *a.Value)
 	s.broadcast(p, m)
 }
 
@@ -485,8 +611,9 @@ func (s *sim) onVote(p *node, kind byte, h types.Height, r types.Round, sender A
 				s.fail("prevote-unjustified", "validator %d prevotes %s at h%d r%d without a matching proposal from the proposer (with validRound -1, or validRound vr<r and a quorum of prevotes at vr) in its log",
 					p.i, s.vname(v), h, r)
 			}
-			if !s.valid[v] {
-				s.fail("prevote-invalid", "validator %d prevotes the invalid value %s", p.i, s.vname(v))
+			if !s.validFor(p, v) {
+				s.fail("prevote-invalid", "validator %d prevotes %s at h%d r%d, a value its application judges invalid at that height: %s",
+					p.i, s.vname(v), h, r, s.whyInvalid(p, v))
 			}
 			if rec.lockR >= 0 && rec.lockID != id.h {
 				s.unlocks++
@@ -497,8 +624,9 @@ func (s *sim) onVote(p *node, kind byte, h types.Height, r types.Round, sender A
 				s.fail("precommit-unjustified", "validator %d precommits %s at h%d r%d; its log has proposal=%v and prevote power %d for it, quorum is %d of %d",
 					p.i, s.vname(v), h, r, s.hasProposal(rec, h, r, id), s.votePower(rec, h, 'v', r, id), q, s.vs.total(h))
 			}
-			if !s.valid[v] {
-				s.fail("precommit-invalid", "validator %d precommits the invalid value %s", p.i, s.vname(v))
+			if !s.validFor(p, v) {
+				s.fail("precommit-invalid", "validator %d precommits %s at h%d r%d, a value its application judges invalid at that height: %s",
+					p.i, s.vname(v), h, r, s.whyInvalid(p, v))
 			}
 			rec.lockR, rec.lockID = r, id.h
 			s.locks++
@@ -540,8 +668,9 @@ func (s *sim) onCommit(p *node, a *starknet.Commit) {
 	if s.senderIdx(a.Sender) != pi {
 		s.fail("validity", "validator %d commits at h%d a proposal of round %d sent by validator %d; the proposer is %d", p.i, h, a.Round, s.senderIdx(a.Sender), pi)
 	}
-	if !s.valid[v] {
-		s.fail("validity", "validator %d commits %s at height %d which the application judges invalid", p.i, s.vname(v), h)
+	// judged by the committing validator's application at the height and chain state of the commit (p.height is still h)
+	if !s.validFor(p, v) {
+		s.fail("validity", "validator %d commits %s at height %d, which its application judges invalid at that height: %s", p.i, s.vname(v), h, s.whyInvalid(p, v))
 	}
 	if s.nodes[pi].byz {
 		if _, ok := s.byzProps[hr{h, a.Round}][id.h]; !ok {
@@ -561,5 +690,6 @@ func (s *sim) onCommit(p *node, a *starknet.Commit) {
 			p.i, s.vname(v), h, a.Round, pw, q, s.vs.total(h), s.hasProposal(rec, h, a.Round, id))
 	}
 	s.commits++
+	p.dec[h] = v // the driver applies the block, then starts the next height
 	p.height++
 }
